@@ -25,6 +25,14 @@ func init() { runners["C13"] = runC13 }
 // resetNode creates node `id` from A's block k and frame (through JSON), as core.fastForward +
 // node.fastForward do at the hashgraph level.
 func resetNode(d *dag, a *hnode, id int, k int, c *Case) (*hnode, error) {
+	return resetNodePre(d, a, id, k, c, nil)
+}
+
+// resetNodePre: as resetNode, but the node first lives through `pre` (a prefix of A's
+// history, with its own deliveries) before it is reset, as a node that falls behind and
+// fast-forwards does: Reset must leave no trace of the earlier life. The earlier life is
+// not part of the case: the model's reset starts from scratch.
+func resetNodePre(d *dag, a *hnode, id int, k int, c *Case, pre []*gEvent) (*hnode, error) {
 	blk := a.blocks[k]
 	fr, err := a.store.GetFrame(blk.RoundReceived())
 	if err != nil {
@@ -39,6 +47,18 @@ func resetNode(d *dag, a *hnode, id int, k int, c *Case) (*hnode, error) {
 	nd.validators = peers.NewPeerSet(d.genesis())
 	nd.h = hg.NewHashgraph(nd.store, nd.commit, quiet())
 	nd.h.Init(peers.NewPeerSet(d.genesis()))
+	if len(pre) > 0 {
+		scratch := &Case{}
+		for _, g := range pre {
+			nd.run(scratch, g)
+		}
+		nd.preBlocks = len(nd.blocks)
+		nd.inserted = map[string]bool{}
+		nd.order = nil
+		nd.blocks = nil
+		nd.commitLog = nil
+		nd.commitBody = map[int]string{}
+	}
 	if err := nd.h.Reset(&b2, &f2); err != nil {
 		c.Op(fmt.Sprintf("HG reset %d %d %d", id, a.id, blk.Index()), "O reset err")
 		return nil, err
@@ -142,7 +162,12 @@ func runC13(r *Result, thorough bool) {
 				continue
 			}
 			seen[k] = true
-			b, err := resetNode(d, a, 10+ai, k, c)
+			var pre []*gEvent
+			if ai%2 == 1 {
+				pre = a.order[:rng.Intn(len(a.order)+1)] // an earlier life before the fast-forward
+				r.Inc("resets_of_used_nodes", 1)
+			}
+			b, err := resetNodePre(d, a, 10+ai, k, c, pre)
 			if err != nil {
 				r.Violate("impl-violation", fmt.Sprintf("Reset from an honest anchor (block %d) failed: %v", k, err), "reset-failed", map[string]interface{}{"options": o.String()})
 				continue
